@@ -1033,7 +1033,10 @@ class Variable(CanBehaveLikeAVariable[T]):
             # (evaluated already under this binding. The evaluation that bound it may be suspended right now - one
             # predicate call object used in several places of a condition -: the flags of the node are left alone unless a
             # row is handed out)
-            if self is self._conditions_root_ or isinstance(self._parent_, LogicalOperator):
+            if self._predicate_type_ and not self._is_used_as_condition_:
+                # (a predicate call that is used as a value here: what it was bound to, falsy or not)
+                yield sources
+            elif self is self._conditions_root_ or isinstance(self._parent_, LogicalOperator):
                 if self._predicate_type_:
                     # a predicate call is as true as the value it was bound to.
                     is_false = bool(sources[self._id_].value) == self._invert_
@@ -1203,7 +1206,7 @@ class Variable(CanBehaveLikeAVariable[T]):
         if self._predicate_type_ == PredicateType.SubClassOfPredicate:
             function_output = function_output()
 
-        if self._predicate_type_ or self._invert_:
+        if (self._predicate_type_ or self._invert_) and self._is_used_as_condition_:
             # Compute truth considering inversion
             result_truthy = bool(function_output)
             self._is_false_ = result_truthy if self._invert_ else not result_truthy
@@ -1225,6 +1228,18 @@ class Variable(CanBehaveLikeAVariable[T]):
             for d in kwargs.values():
                 values.update(d)
             yield values
+
+    @property
+    def _is_used_as_condition_(self) -> bool:
+        """
+        Whether this (predicate call) stands in condition position, where what it returns is read as a boolean, or is used
+        as a value (an operand, an argument, a selected output): then what it returns is a value like any other, falsy or
+        not.
+        """
+        parent = self._parent_
+        return (parent is None or isinstance(parent, LogicalOperator)
+                or (isinstance(parent, (QueryObjectDescriptor, ResultQuantifier)) and parent._child_ is self)
+                or (isinstance(parent, ForAll) and self is parent.condition))
 
     @property
     def _name_(self):
